@@ -41,6 +41,66 @@ def const_date_args(e):
     return None
 
 
+_MODENV = {}
+
+
+def calendar_role(ctx, fn, idx, cut, kind, key, name, st, match, birth):
+    import datetime as _dt
+    env0 = _MODENV.get('env')
+    if env0 is None or not isinstance(cut, ast.Name):
+        return None
+    days = []
+    for y in (2015, 2016):
+        d = _dt.date(y, 1, 1)
+        while d.year == y:
+            days.append(d)
+            d += _dt.timedelta(days=1)
+
+    def rule(role, D):
+        if role == 'am':
+            return D
+        if role == 'a12':
+            return _dt.date(D.year, 12, 31)
+        if kind == 'TF':
+            return _dt.date(D.year, 8, 31)
+        x = _dt.date(D.year, 8, 31)
+        return x if x <= D else _dt.date(D.year - 1, 8, 31)
+    got = {}
+    for D in days:
+        env = dict(env0)
+        env.update({match: D, birth: _dt.date(2000, 6, 15)})
+        F = fold.Folder(importer=_MODENV.get('importer'))
+        try:
+            for s_ in fn.body[:idx]:
+                if isinstance(s_, ast.Expr) and isinstance(s_.value, ast.Constant):
+                    continue
+                if isinstance(s_, ast.If) and birth in ast.unparse(s_.test):
+                    continue            # string parsing of the birth date
+                if any(isinstance(c, ast.Call) and call_name(c) == 'relativedelta' for c in ast.walk(s_)):
+                    continue
+                F.stmt(s_, env)
+        except Exception:
+            return None
+        if not isinstance(env.get(cut.id), _dt.date):
+            return None
+        got[D] = env[cut.id]
+    best = None
+    for role in (['a8', 'a12', 'am'] if kind == 'TF' else ['a8', 'am']):
+        wrong = [D for D in days if got[D] != rule(role, D)]
+        if best is None or len(wrong) < len(best[1]):
+            best = (role, wrong)
+    role, wrong = best
+    if len(wrong) > len(days) // 2:
+        return None
+    if wrong:
+        D = wrong[0]
+        ctx.finding('R1', key + ' cut-off date', UKA, st.lineno,
+                    '%s is measured at `%s`, which for a competition on %s is %s; the rule\'s date is %s (%d of the %d calendar days of a common and a '
+                    'leap year give another date than the rule)' % (name, unparse(cut), D.isoformat(), got[D].isoformat(), rule(role, D).isoformat(),
+                                                                    len(wrong), len(days)), D.isoformat())
+    return role
+
+
 def age_variables(fn, kind, SP, ctx):
     """{role: variable name}, index of the last defining statement"""
     birth, match = fn.args.args[0].arg, fn.args.args[1].arg
@@ -91,6 +151,11 @@ def age_variables(fn, kind, SP, ctx):
                                     '%s uses prior_date(%s); the rule is the last 31 August on or before the day' % (name, ', '.join(args)))
                         role = 'a8'
             if role is None:
+                # not one of the recognised constructions: decide the cut-off over the calendar - the statements before this one are
+                # folded for every day of a common and a leap year (the functions depend on the year only through +-1) and the date
+                # obtained is compared with the rule's date
+                role = calendar_role(ctx, fn, i, cut, kind, key, name, st, match, birth)
+            if role is None:
                 raise AnalysisError('%s: cannot classify the cut-off of %s (%s)' % (fn.name, name, unparse(v)))
             if role in roles:
                 roles.setdefault('dup:' + role, name)     # a second variable with the same cut-off: some role is missing
@@ -117,6 +182,8 @@ def run(ctx, repo):
     ctx.rule('R5', 'category dispatch = {TF, ROAD, XC, ESAA -> NotImplementedError, else ValueError}, options passed through')
     F = fold.Folder()
     cells_total = 0
+    _MODENV['env'], _fld = repo.folded(UKA)
+    _MODENV['importer'] = _fld.importer if _fld is not None else None
     for fname, kind in (('rule107_agegroups_trackandfield', 'TF'), ('rule507_agegroups_crosscountry', 'XC')):
         fn = mod.func(fname)
         if len(fn.args.args) < 4:
@@ -164,12 +231,13 @@ def run(ctx, repo):
         chain = fn.body[last + 1:]
         for st in chain:
             for n in ast.walk(st):
-                if isinstance(n, ast.Call) and call_name(n) not in ('int', 'str', 'format'):
+                if isinstance(n, ast.Call) and call_name(n) not in ('int', 'str', 'format') and not (
+                        isinstance(n.func, ast.Name) and mod.has_func(n.func.id)):      # helpers of the module are folded with the chain
                     raise AnalysisError('%s: call %s in the decision chain' % (fname, unparse(n)))
         clauses = SP[kind]
         mism = {}
         # module-level constants the chain may consult (lookup tables), obtained by constant folding
-        modconsts = {k: v for k, v in repo.folded(UKA)[0].items() if isinstance(v, (list, tuple, dict, str, int, float))}
+        modconsts = {k: v for k, v in repo.folded(UKA)[0].items() if isinstance(v, (list, tuple, dict, str, int, float, fold.FuncConst))}
         n_cells = 0
         for a8 in range(0, MAXAGE + 1):
             if kind == 'TF':
